@@ -1,6 +1,7 @@
 package main
 
 import (
+	"sort"
 	"flag"
 	"fmt"
 	"os"
@@ -56,6 +57,8 @@ func main() {
 		os.Exit(cmdCheck(os.Args[2:]))
 	case "selftest":
 		os.Exit(cmdSelftest(os.Args[2:]))
+	case "sweep":
+		cmdSweep(os.Args[2:])
 	default:
 		usage()
 	}
@@ -95,6 +98,7 @@ func cmdFunc(args []string) {
 	dump := fs.Bool("dump", false, "print obligations")
 	seed := fs.Int("seed", 0, "solver seed")
 	view := fs.String("view", "", "property view")
+	lockstep := fs.Bool("lockstep", false, "lockstep (x2 scaling) mode; the listed functions form the lockstep set")
 	fs.Parse(args)
 	t0 := time.Now()
 	pr, err := LoadProg(*repo, []string{filepath.Join(verifRoot(), "spec")})
@@ -132,7 +136,14 @@ func cmdFunc(args []string) {
 		for _, fk := range pr.FuncKeys {
 			if fk == k || (strings.HasSuffix(k, "*") && strings.HasPrefix(fk, strings.TrimSuffix(k, "*"))) {
 				matched = true
-				r := VerifyFunc(pr, eff, pr.Funcs[fk], VerifyOpts{NoSafety: *nosafe, View: *view})
+				vo := VerifyOpts{NoSafety: *nosafe, View: *view}
+				if *lockstep {
+					vo.Lockstep = map[string]bool{}
+					for _, a := range fs.Args() {
+						vo.Lockstep[a] = true
+					}
+				}
+				r := VerifyFunc(pr, eff, pr.Funcs[fk], vo)
 				reps = append(reps, r)
 				all = append(all, r.Obls...)
 			}
@@ -169,3 +180,62 @@ func cmdFunc(args []string) {
 	fmt.Printf("total %.2fs\n", time.Since(t0).Seconds())
 }
 
+
+// cmdSweep: safety obligations of every function reachable from Layout, one line per function (developer aid and C01 triage).
+func cmdSweep(args []string) {
+	fs := flag.NewFlagSet("sweep", flag.ExitOnError)
+	repo := fs.String("repo", "/repo", "repository root")
+	tmo := fs.Int("t", 5, "solver timeout seconds")
+	fs.Parse(args)
+	pr, err := LoadProg(*repo, []string{filepath.Join(verifRoot(), "spec")})
+	if err != nil {
+		fmt.Fprintln(os.Stderr, err)
+		os.Exit(2)
+	}
+	eff := ComputeEffects(pr)
+	reach := eff.Reachable(pr.Funcs["autog.Layout"])
+	var keys []string
+	for fi := range reach {
+		keys = append(keys, fi.Key)
+	}
+	sort.Strings(keys)
+	var all []*Obligation
+	reps := map[string]*FuncReport{}
+	for _, k := range keys {
+		r := VerifyFunc(pr, eff, pr.Funcs[k], VerifyOpts{View: "C01"})
+		reps[k] = r
+		for _, o := range r.Obls {
+			if o.Kind == "safety" || o.Kind == "call.pre" || o.Kind == "decreases" {
+				all = append(all, o)
+			}
+		}
+	}
+	cfg := &SolverCfg{Timeout: time.Duration(*tmo) * time.Second, WorkDir: workDir()}
+	SolveAll(all, cfg, runtime.NumCPU()/2)
+	clean := 0
+	for _, k := range keys {
+		r := reps[k]
+		n, bad := 0, 0
+		var fails []string
+		for _, o := range r.Obls {
+			if o.Result == nil || !(o.Kind == "safety" || o.Kind == "call.pre" || o.Kind == "decreases") {
+				continue
+			}
+			n++
+			if o.Result.Status != "unsat" {
+				bad++
+				if len(fails) < 4 {
+					fails = append(fails, fmt.Sprintf("%s@%d", strings.TrimPrefix(o.Name, k+"/"), o.Pos.Line))
+				}
+			}
+		}
+		st := "CLEAN"
+		if bad > 0 || r.Err != "" {
+			st = "OPEN "
+		} else {
+			clean++
+		}
+		fmt.Printf("%s %-58s safety=%d failed=%d %s %s\n", st, k, n, bad, strings.Join(fails, " "), r.Err)
+	}
+	fmt.Printf("%d functions reachable from Layout, %d clean\n", len(keys), clean)
+}
